@@ -65,8 +65,8 @@ def convert(dump, cfgpath, name, origin):
             t = prev["th"][ctx["i"]][s]
             op = t["op"]
             sel = {"i": i, "kind": op["kind"], "src": src_of(s, t["pc"], op["kind"])}
-            if op["kind"] in ("create", "update"):
-                sel["tok"] = op["tok"]
+            # (tokens are not used as selectors: the real code draws its jitters at random, so the order in which two
+            #  instances issue their Creates - and with it the numbering of the interned tokens - may differ from the model's)
             if nm == "StoreApply":
                 step = dict(sel, do="apply")
             elif nm == "LoseAck":
@@ -76,8 +76,6 @@ def convert(dump, cfgpath, name, origin):
         elif nm == "OrphApply":
             o = ctx["o"]
             step = {"do": "apply", "i": ids_up[o["i"]], "kind": o["kind"]}
-            if o["kind"] in ("create", "update"):
-                step["tok"] = o["tok"]
         elif nm in ("AcqCreateResp", "TkGetResp", "TkUpdateResp", "HbUpdateResp", "ValGetResp", "WatchOpenResp", "CheckResp",
                     "StopOwnsResp", "StopDeleteResp", "ApiGetResp", "VerifyGetResp"):
             s = ctx.get("s") or {"HbUpdateResp": "hb", "ValGetResp": "val", "WatchOpenResp": "w", "CheckResp": "w",
@@ -85,8 +83,6 @@ def convert(dump, cfgpath, name, origin):
             t = prev["th"][ctx["i"]][s]
             op = t["op"]
             step = {"do": "respond", "i": i, "kind": op["kind"], "src": src_of(s, t["pc"], op["kind"])}
-            if op["kind"] in ("create", "update"):
-                step["tok"] = op["tok"]
             if s in ("api", "vfy"):
                 step["src"] = "validate" if s == "api" else ""
         elif nm == "WatchEvent":
